@@ -647,17 +647,32 @@ func saneProg(r *rand.Rand) []opD {
 		ops = append(ops, opD{T: "SetStatusCode", N: hlib.Pick(r, statuses), Vr: r.Intn(3)})
 	}
 	n := r.Intn(6)
+	raw := false
 	for i := 0; i < n; i++ {
 		if r.Intn(2) == 0 {
 			ops = append(ops, rheaderOp(r))
 		} else {
-			ops = append(ops, rbodyOp(r))
+			o := rbodyOp(r)
+			if raw && o.T == "AppendBody" {
+				o.T = "SetBody" // AppendBody on a raw body is the finding appendbody-after-setbodyraw (own family)
+			}
+			switch o.T {
+			case "SetBodyRaw":
+				raw = true
+			case "SetBody", "ResetBody", "SetBodyStream", "Error":
+				raw = false
+			}
+			ops = append(ops, o)
 		}
 	}
 	if r.Intn(5) == 0 { // trailers (written after a chunked body, announced in Trailer)
 		ops = append(ops, opD{T: "Set", K: []byte("Foo"), V: []byte("bar"), Vr: r.Intn(5)}, opD{T: hlib.Pick(r, []string{"SetTrailer", "AddTrailer"}), V: []byte(hlib.Pick(r, []string{"Foo", "Foo, X-Bar", "foo", "Content-Length", ""}))})
 		if r.Intn(2) == 0 {
-			ops = append(ops, rbodyOp(r))
+			o := rbodyOp(r)
+			if o.T == "AppendBody" {
+				o.T = "SetBody"
+			}
+			ops = append(ops, o)
 		}
 	}
 	return ops
@@ -700,8 +715,61 @@ func gen(r *rand.Rand, i int) desc {
 		q.Ops = []opD{{T: "SetBodyStream", N: plen(ps) + 1 + int64(r.Intn(9)), S: &streamD{Kind: hlib.Pick(r, []string{"writerto", "gwriterto"}), Pieces: ps}, Vr: r.Intn(3)}}
 		d.Reqs = append(d.Reqs[:r.Intn(len(d.Reqs))], q)
 		d.Tag = "mismatch-writerto-short"
+	case 3, 4: // known-finding families: the request in the class comes first, an ordinary one may follow
+		q := rreq(r)
+		q.Method = hlib.Pick(r, []string{"GET", "POST"})
+		q.Close, q.V10 = false, false
+		tag, ops := findingProg(r)
+		q.Ops = ops
+		d.Reqs = []reqD{q}
+		if r.Intn(2) == 0 {
+			d.Reqs = append(d.Reqs, reqD{Method: "GET", Ops: []opD{{T: "SetBody", V: hlib.B("second")}}})
+		}
+		d.Cfg.DisableKA = false
+		d.Tag, d.Key = tag, tag
 	}
 	return d
+}
+
+// programs in the classes of findings/C03.txt (see there)
+func findingProg(r *rand.Rand) (string, []opD) {
+	small := func() []hlib.B {
+		ps := rpieces(r)
+		if len(ps) == 0 || plen(ps) > 200 {
+			ps = []hlib.B{hlib.B("stream-data")}
+		}
+		return ps
+	}
+	switch r.Intn(5) {
+	case 0:
+		ps := append(small(), hlib.B("HTTP/1.1 200 OK\r\nContent-Length: 3\r\n\r\nEVL"))
+		decl := int64(r.Intn(int(plen(ps))))
+		return "stream-writerto-oversize", []opD{{T: "SetBodyStream", N: decl, S: &streamD{Kind: hlib.Pick(r, []string{"writerto", "gwriterto"}), Pieces: ps}, Vr: r.Intn(2)}}
+	case 1:
+		ps := small()
+		return "manual-content-length-on-chunked-stream", []opD{{T: "SetBodyStream", N: -1, S: &streamD{Kind: hlib.Pick(r, []string{"reader", "writerto"}), Pieces: ps}},
+			{T: hlib.Pick(r, []string{"Set", "Add", "SetCanonical"}), K: hlib.B("Content-Length"), V: hlib.B(strconv.FormatInt(plen(ps), 10)), Vr: r.Intn(4)}}
+	case 2:
+		ops := []opD{{T: "SkipBody", B: true}}
+		switch r.Intn(3) {
+		case 0:
+			ops = append(ops, opD{T: "SetBody", V: hlib.B("skipped body")})
+		case 1:
+			ops = append(ops, opD{T: "SetBodyStream", N: -1, S: &streamD{Kind: "reader", Pieces: small()}})
+		}
+		return "skipbody-on-non-head", ops
+	case 3:
+		ps := small()
+		if r.Intn(2) == 0 {
+			ps = nil // an empty stream: nothing fails, the response has no length at all
+		}
+		if r.Intn(2) == 0 {
+			return "stream-length-header-lost", []opD{{T: "SetStatusCode", N: hlib.Pick(r, []int64{304, 204, 100})}, {T: "SetBodyStream", N: hlib.Pick(r, []int64{-1, plen(ps)}), S: &streamD{Kind: "reader", Pieces: ps}}, {T: "SetStatusCode", N: 200}}
+		}
+		return "stream-length-header-lost", []opD{{T: "SetBodyStream", N: plen(ps), S: &streamD{Kind: "reader", Pieces: ps}}, {T: "Del", K: hlib.B("Content-Length"), Vr: r.Intn(2)}}
+	default:
+		return "appendbody-after-setbodyraw", []opD{{T: "SetBodyRaw", V: hlib.B("raw part ")}, {T: "AppendBody", V: hlib.Bytes(r, bodyAlpha, 10), Vr: r.Intn(4)}}
+	}
 }
 
 func one(m string, ops ...opD) []reqD { return []reqD{{Method: m, Ops: ops}} }
@@ -773,6 +841,24 @@ func corpus() []desc {
 		add("connclose", two(m, opD{T: "Set", K: hlib.B("Connection"), V: hlib.B("close")}, opD{T: "SetBody", V: hlib.B("bye")}))
 		add("trailer-fixed", two(m, opD{T: "Set", K: hlib.B("Foo"), V: hlib.B("bar")}, opD{T: "SetTrailer", V: hlib.B("Foo")}, opD{T: "SetBody", V: hlib.B("abc")}))
 	}
+	key := func(k string, reqs []reqD) { c = append(c, desc{Reqs: reqs, Tag: k, Key: k}) }
+	evl := "HTTP/1.1 200 OK\r\nContent-Length: 3\r\n\r\nEVL"
+	for _, m := range []string{"GET", "POST"} {
+		key("stream-writerto-oversize", two(m, opD{T: "SetBodyStream", N: 5, S: rd("writerto", false, big)}))
+		key("stream-writerto-oversize", two(m, opD{T: "SetBodyStream", N: 5, S: rd("writerto", false, "hello"+evl), Vr: 1}))
+		key("stream-writerto-oversize", two(m, opD{T: "SetBodyStream", N: 5, S: rd("gwriterto", false, "hello"+evl)}))
+		key("manual-content-length-on-chunked-stream", two(m, opD{T: "SetBodyStream", N: -1, S: rd("reader", false, "hello")}, opD{T: "Set", K: hlib.B("Content-Length"), V: hlib.B("5")}))
+		key("skipbody-on-non-head", two(m, opD{T: "SetBody", V: hlib.B("hello")}, opD{T: "SkipBody", B: true}))
+		key("skipbody-on-non-head", two(m, opD{T: "SkipBody", B: true}))
+		key("skipbody-on-non-head", two(m, opD{T: "SkipBody", B: true}, opD{T: "SetBodyStream", N: -1, S: rd("reader", false, "hello")}))
+		key("stream-length-header-lost", two(m, opD{T: "SetStatusCode", N: 304}, opD{T: "SetBodyStream", N: 0, S: rd("reader", false)}, opD{T: "SetStatusCode", N: 200}))
+		key("stream-length-header-lost", two(m, opD{T: "SetStatusCode", N: 304}, opD{T: "SetBodyStream", N: 5, S: rd("reader", false, "hello")}, opD{T: "SetStatusCode", N: 200}))
+		key("stream-length-header-lost", two(m, opD{T: "SetBodyStream", N: 0, S: rd("reader", false)}, opD{T: "Del", K: hlib.B("Content-Length")}))
+		key("appendbody-after-setbodyraw", two(m, opD{T: "SetBodyRaw", V: hlib.B("XYZ")}, opD{T: "AppendBody", V: hlib.B("d")}))
+	}
+	// the same calls answering a HEAD request are harmless
+	add("skipbody-head", two("HEAD", opD{T: "SetBody", V: hlib.B("hello")}, opD{T: "SkipBody", B: true}))
+	add("skipbody-false", two("GET", opD{T: "SkipBody", B: true}, opD{T: "SetBody", V: hlib.B("hello")}, opD{T: "SkipBody", B: false}))
 	for _, v10 := range []bool{true} {
 		for _, ka := range []bool{false, true} {
 			c = append(c, desc{Tag: "http10", Reqs: []reqD{{Method: "GET", V10: v10, KeepAlive: ka, Ops: []opD{{T: "SetBody", V: hlib.B("ten")}}}, {Method: "GET", Ops: []opD{{T: "SetBody", V: hlib.B("second")}}}}})
